@@ -5,6 +5,7 @@ import DirectVerif.Model.C06Crop
 /-!
 # Bridge C06 — the ACS arithmetic translated from `/repo` equals the hand-written model
 -/
+set_option linter.unusedSimpArgs false
 namespace DirectVerif.Bridge.C06
 open DirectVerif DirectVerif.MaskGeom DirectVerif.Gen.C06 DirectVerif.C06Seed DirectVerif.C06Round
 
@@ -40,18 +41,18 @@ theorem zero_pad_stop_eq (t c : Int) : zero_pad_stop t c = zeroPadStart t c + c 
 theorem num_low_random_eq (cols : Nat) (p : PairCfg) (g : Gen) (hg : g = .fastmriRandom ∨ g = .cartesianRandom) :
     num_low_random cols p.cfNum p.cfDen = numLow g cols p := by
   rcases hg with rfl | rfl <;>
-  · simp only [num_low_random, numLow, numLowFreqs, roundMul, Int.toNat_natCast, Int.one_mul, Int.ofNat_lt, decide_eq_true_eq]
+  · simp only [num_low_random, numLowFraction, numLow, numLowFreqs, roundMul, Int.toNat_natCast, Int.one_mul, Int.ofNat_lt, decide_eq_true_eq]
 
 theorem num_low_equispaced_eq (cols : Nat) (p : PairCfg) (g : Gen) (hg : g = .fastmriEquispaced ∨ g = .cartesianEquispaced) :
     num_low_equispaced cols p.cfNum p.cfDen = numLow g cols p := by
   rcases hg with rfl | rfl <;>
-  · simp only [num_low_equispaced, numLow, numLowFreqs, roundMul, Int.toNat_natCast, Int.one_mul, Int.ofNat_lt, decide_eq_true_eq]
+  · simp only [num_low_equispaced, numLowFraction, numLow, numLowFreqs, roundMul, Int.toNat_natCast, Int.one_mul, Int.ofNat_lt, decide_eq_true_eq]
 
 /-- Magic: raw width, sampling budget `round(num_cols / acceleration)`, cap -/
 theorem num_low_magic_eq (cols : Nat) (p : PairCfg) (g : Gen) (hg : g = .fastmriMagic ∨ g = .cartesianMagic) :
     magic_cap (num_low_magic cols p.cfNum p.cfDen) (magic_target cols p.accNum p.accDen) = numLow g cols p := by
   rcases hg with rfl | rfl <;>
-  · simp only [magic_cap, num_low_magic, magic_target, numLow, numLowFreqs, magicCap, roundMul, roundQuot, Int.toNat_natCast,
+  · simp only [magic_cap, num_low_magic, numLowMagicRaw, magic_target, numLow, numLowFreqs, magicCap, roundMul, roundQuot, Int.toNat_natCast,
       Int.one_mul, gt_iff_lt, Int.ofNat_lt, decide_eq_true_eq]
     by_cases h : p.cfDen < p.cfNum <;> simp [h]
 
